@@ -43,7 +43,7 @@ class C20(Prop):
     imports = "From Tola Require Import Py.Base Model.NaturalKey Corr.C20."
     show_fn = "show"
     design_ref = "6/C20"
-    required_theorems = []
+    required_theorems = ['C20_key_total', 'C20_key_shape', 'C20_no_mixed_comparison', 'C20_sorted_by_name_total', 'C20_smart_sort_total', 'C20_key_le_trans', 'C20_key_le_total', 'C20_key_le_antisym', 'C20_sort_consistent', 'C20_sort_sorted', 'C20_smart_sort_consistent', 'C20_numeric_order', 'C20_roman_order', 'C20_unloc_between', 'C20_unloc_before_later_suffix', 'C20_new_key_extends_old', 'C20_legacy_refuted']
 
     def rule(self):
         return (
